@@ -49,6 +49,7 @@ def run(ctx):
     ctx.step(span, ctx)
     ctx.step(commit, ctx)
     ctx.step(reader, ctx)
+    ctx.step(common.raii_only, ctx, "C04.raii", ["cow_guarded.hpp"], floor=10)
     ctx.step(common.atomic_floors, ctx, "C04.lr-orders", [LR, LR + "::shared_deleter"], floor=20, files=["lr_guarded.hpp"])
     ctx.step(common.witnesses, ctx, "C04.witness", ["C04"])
 
